@@ -32,8 +32,12 @@ def d_bounds(old, recent, n):
 
 
 def kswin_stream(rng, cfg, n):
-    kind = rng.choice(["disjoint", "same", "const", "random", "random"])
+    kind = rng.choice(["disjoint", "same", "const", "random", "random", "bigint"])
     mn = cfg["min_num_instances"]
+    if kind == "bigint":
+        # integers beyond 2^53 (distinct as integers, equal after rounding to binary64); disjoint ranges after the shift
+        k = rng.randrange(mn, max(mn + 1, n))
+        return [2**60 + (rng.randrange(0, 50) if i < k else 1000 + rng.randrange(0, 50)) for i in range(n)]
     if kind == "disjoint":  # old and recent ranges disjoint after the shift: every sub-sample is rejected
         k = rng.randrange(mn, max(mn + 1, n))
         return [rng.uniform(0, 1) if i < k else rng.uniform(5, 6) for i in range(n)]
@@ -128,7 +132,7 @@ def run(ck: Check):
         if out2 != full_out or samples2 != full_samples:
             ck.violation(dict(clause="kswin-seed", detector="KSWIN", seed_zero=cfg["seed"] == 0), dict(what="two runs from the same seed differ", config=cfg, stream=full_ops))
             continue
-        if mn <= 20:
+        if mn <= 20 and not any(isinstance(v, int) and abs(v) > 2**53 for v in full_ops if v != "R"):
             cases.append((KS, cfg, full_ops, full_samples))
             impl.append(full_out)
     # KSWIN, alpha EXACTLY an attainable p-value ("<= alpha"): min_num_instances = 2 * num_test_instances, so the
@@ -218,6 +222,22 @@ def run(ck: Check):
         if stepd_monitor(cfg, xs, post) and len(ops) <= 120:
             cases.append((SP, cfg, ops, None))
             impl.append(out)
+    # STEPD on 0/1 streams handed over as narrow NumPy integers: counts pass 127 / 255 (correct predictions dominate)
+    import numpy as _np
+
+    for ty in (_np.uint8, _np.int8, _np.int64):
+        for _ in range(2 if not thorough else 8):
+            cfg = SP.gen_cfg(rng)
+            n = rng.choice([330, 420])
+            k = rng.randrange(n // 2, n - 40)
+            xs = [int(rng.random() < (0.95 if i < k else 0.7)) for i in range(n)]
+            out, exc, _ = run_impl(SP, cfg, [ty(v) for v in xs])
+            if exc is not None:
+                ck.violation(dict(clause="raises", detector="STEPD", error=type(exc).__name__, input_type=ty.__name__), dict(config=cfg, input_type=ty.__name__, n=n, error=repr(exc), head=xs[:10]))
+                continue
+            ck.case(dict(detector="STEPD", config=cfg, n=n, input_type=ty.__name__), nontrivial=any(o[0] or o[1] for o in out), key=repr((cfg, xs, ty.__name__)))
+            ck.count("stepd_typed_streams")
+            stepd_monitor(cfg, xs, out)
     models = run_models("C06", cases, shard=30)
     corr_compare(ck, "C06", cases, impl, models)
 
